@@ -250,10 +250,10 @@ def setup_fs(sr, u, cfg, shape, tagprefix, lens=(1, 0, 2)):
         sr.do('join %sP %sU %s' % (tagprefix, tagprefix, hx(b'p')))
         sr.do('create_dir %sP' % tagprefix)
         sr.do('fs %s alt %sP' % (root, tagprefix))
-    elif cfg in ('ovl', 'ovl_lowerpre'):
+    elif cfg in ('ovl', 'ovl_lowerpre', 'ovl_removed'):
         sr.do('fs %sL0 mem' % tagprefix)
         sr.do('fs %sL1 mem' % tagprefix)
-        if cfg == 'ovl_lowerpre':
+        if cfg in ('ovl_lowerpre', 'ovl_removed'):
             # the pre-existing entries live in the lower layer only (built through the lower layer's own API)
             st.define_paths(tagprefix + 'L1', tagprefix + 'LL_')
             for v, k in shape:
@@ -271,6 +271,14 @@ def setup_fs(sr, u, cfg, shape, tagprefix, lens=(1, 0, 2)):
     # the same symbolic contents in every copy of the state
     t = Tree(u)
     fi = 0
+    if cfg == 'ovl_removed':
+        # ... and were then removed through the overlay: the tree is empty again, but the overlay holds a marker per entry
+        for v, k in shape:
+            if u.parent(v) == 'R':
+                r = sr.do('%s %s%s' % ('remove_dir_all' if k == 'd' else 'remove_file', tagprefix, v))
+                if r != 'ok':
+                    raise Unmodelled('thread set-up failed (removal through the overlay): ' + r)
+        return t
     for v, k in shape:
         if cfg == 'ovl_lowerpre':
             t.n[v] = 'd' if k == 'd' else ('f', sr.syms['c_' + v])
